@@ -16,7 +16,8 @@ THEOREMS = ["Rva.lint_codes_nodup", "Rva.lint_tables_total", "Rva.lint_severity_
             "Rva.lostRegister_silent", "Rva.overlapping_reported", "Rva.unreachable_reported",
             "Rva.jumpToFunction_reported", "Rva.functionFirst_reported", "Rva.controlFlow_silent",
             "Rva.garbageRead_reported", "Rva.garbageRead_silent", "Rva.stack_first_stop",
-            "Rva.stackOffset_reported"]
+            "Rva.stackOffset_reported",
+            "Rva.useAfterCall_reported", "Rva.firstUsage_next"]
 
 
 def find(lines, pred):
@@ -184,7 +185,7 @@ def inject(rng, lines):
 
 def run(res, tier, seed):
     rng = random.Random(seed)
-    proof_ok = proof_stage(res, "Rva.Proofs.C05b", THEOREMS, extra_modules=["Rva.Proofs.C05", "Rva.Proofs.Tables"])
+    proof_ok = proof_stage(res, "Rva.Proofs.C05c", THEOREMS, extra_modules=["Rva.Proofs.C05b", "Rva.Proofs.C05", "Rva.Proofs.Tables"])
     n = 12 if tier == "quick" else 150
     cases = []
     for _ in range(n):
